@@ -159,6 +159,7 @@ static void g_printf(void) {
         { "%lc", 4, 0x20ac, 0, 0, 0, 3 }, { "%lc", 4, 0x1f600, 0, 0, 0, 4 }, { "ab%lc", 4, 0x20ac, 0, 0, 0, 5 }, { "%f", 5, 0, 0, 0, 1.5, 8 }, { "%e", 5, 0, 0, 0, 12345.678, 12 },
         { "%g", 5, 0, 0, 0, 0.0001, 6 }, { "%.0f", 5, 0, 0, 0, 2.5, 1 }, { "%10.3f", 5, 0, 0, 0, -3.14159, 10 }, { "%s", 7, 0, 0, 0, 0, 0 }, { "%Lf|", 8, 0, 0, 0, 2.25, 9 },
         { "%a", 5, 0, 0, 0, 1.0, 6 }, { "%n", 1, 0, 0, 0, 0, 0 }, { "%40d", 1, 7, 0, 0, 0, 40 }, { "%.40d", 1, 7, 0, 0, 0, 40 }, { "%#o %+d", 1, 8, 0, 0, 0, 6 },
+        { "%.s", 6, 0, "abc", 0, 0, 0 }, { "%4.s|", 6, 0, "abc", 0, 0, 5 }, { "%-4.s|", 6, 0, "abc", 0, 0, 5 },      /* a lone period is precision 0: the argument is not read at all */
         { "%.3ls", 9, 3, 0, L"abc", 0, 3 }, { "%.5ls", 9, 2, 0, L"é€", 0, 5 }, { "<%.4ls>", 9, 2, 0, L"é€", 0, 4 },
     };
     int nf = sizeof F / sizeof F[0];
@@ -255,6 +256,17 @@ static void g_unicode(void) {
             judge(1, r != 0, r, SP | CE | SL, 1);
         }
     }
+    /* mode values outside the enumeration (the experimental and the not-compiled-in modes, and plain garbage): whatever the call does with them,
+       dest is terminated afterwards and a failure leaves it empty */
+    { static const int MODES[] = { 2, 3, 4, 5, 6, 7, 64, -1, (int)0x80000000 };
+      for (int mi = 0; mi < 9; mi++) for (int si = 0; si < 13; si += 4) for (size_t dmax = 1; dmax <= 12; dmax += 3) {
+        size_t sl = wcslen(NS[si]); const wchar_t *s = mksrc(1, NS[si], (sl + 1) * sizeof(wchar_t));
+        char rel[64]; snprintf(rel, sizeof rel, "%s", MODES[mi] >= 0 && MODES[mi] <= 5 ? "mode-other-than-nfd-nfc" : "mode-outside-the-enumeration");
+        begin("wcsnorm_s", rel, "wcsnorm-mode %d %d %zu", mi, si, dmax);
+        wchar_t *d = mkdest(dmax, 4, 0); size_t len = 0x7777; int r = 0;
+        CALL(r = wcsnorm(d, dmax, s, MODES[mi], &len, BOSU));
+        judge(1, r != 0, r, SP | CE, 1);
+      } }
 }
 
 
@@ -461,6 +473,10 @@ static void g_os(void) {
         }
     }
     { begin("getenv_s", "unset-variable", "getenv-unset"); char *d = mkdest(8, 1, 0); size_t l = 0; int r = 0; CALL(r = getenv_s_(&l, d, 8, "VERIF_NOT_SET_ANYWHERE", BOSU)); judge(1, 0, 0, SP, 1); }
+    /* names containing '=' (POSIX says they cannot match; glibc looks them up like any other name): whatever the answer, dest ends up terminated */
+    { static const char *NM[] = { "VERIF_GETENV=v", "VERIF_EQ=B", "=", "VERIF_GETENV=" }; setenv("VERIF_EQ", "B=C", 1); setenv("VERIF_GETENV", "vvv", 1);
+      for (int ni = 0; ni < 4; ni++) for (size_t dmax = 1; dmax <= 9; dmax += 4) { begin("getenv_s", "name-with-equals-sign", "getenv-eq %d %zu", ni, dmax); char *d = mkdest(dmax, 1, 0); size_t l = 0; int r = 0;
+        const char *name = mksrc(1, NM[ni], strlen(NM[ni]) + 1); CALL(r = getenv_s_(&l, d, dmax, name, BOSU)); judge(1, r > 0, r > 0 ? r : 0, SP | CE, 1); } }      /* -1: not found, a plain status */
     { begin("getenv_s", "name-null", "getenv-null"); char *d = mkdest(8, 1, 0); size_t l = 0; int r = 0; CALL(r = getenv_s_(&l, d, 8, NULL, BOSU)); judge(1, r != 0, r > 0 ? r : 0, SP | CE, 1); }
     /* gets_s: lines of length dmax-2 .. dmax+2, with and without newline; contents: plain, a NUL as the first byte, a NUL in the middle;
        dest after a text block (the byte in front of it is a newline) and over earlier multi-line contents; histories: the call follows one that already met end-of-file */
